@@ -218,7 +218,7 @@ def jacobian_search(ctx, budget_s=300, entries=None, count=False):
         big = bool(e.extra.get('big'))
         if big and not (e.extra.get('huge') or e.name.endswith('/80/4') or e.name.endswith('/80/0.25')):
             continue
-        for regime in (('fresh',) if big else ('normal', 'fresh')):
+        for regime in (('fresh',) if big else (('normal', 'fresh') if e.spline else ('normal', 'fresh', 'extreme'))):
             try:
                 t = build(e, gen, torch.float64, regime)
                 if e.extra.get('warm_inverse'):
